@@ -58,8 +58,8 @@ func resScenario(p resParams) func() {
 				world.Block() // occupies the handler slot without releasing: the server stops reading
 			}
 			switch p.ending {
-			case "early-quorum", "cancel-then-answer":
-				if h.Node == 2 || p.ending == "cancel-then-answer" {
+			case "early-quorum", "cancel-then-answer", "cancel-while-answering":
+				if h.Node == 2 || p.ending != "early-quorum" {
 					h.Release()
 					w.Wait(g)
 				}
@@ -140,6 +140,12 @@ func resScenario(p resParams) func() {
 				mc.Quiesce()
 				w.Open(fmt.Sprintf("n1t%d", c.Tok))
 				w.Open(fmt.Sprintf("n2t%d", c.Tok))
+			case "cancel-while-answering":
+				// the nodes answer (stream: keep answering) while the context ends: an adversary thread that
+				// the explorer places anywhere in the flow of replies
+				w.Open(fmt.Sprintf("n1t%d", c.Tok))
+				w.Open(fmt.Sprintf("n2t%d", c.Tok))
+				mc.GoLow("cancel", func() { c.Cancel(context.Canceled) })
 			case "deadline-silent":
 				c.Cancel(context.DeadlineExceeded)
 			case "crash", "send-fails":
@@ -196,7 +202,7 @@ func resInstances(tier string) []Instance {
 	if thorough(tier) {
 		kinds = append(kinds, k{"QuorumCallCombo", false}, k{"QuorumCallAsyncPerNodeArg", false}, k{"CorrectableStreamCombo", false}, k{"MulticastPerNodeArg", false})
 	}
-	endings := []string{"early-quorum", "exhaustion", "cancel-then-answer", "deadline-silent", "crash", "handler-error", "stream-end", "send-fails", "pre-cancelled", "cancel-while-queued"}
+	endings := []string{"early-quorum", "exhaustion", "cancel-then-answer", "cancel-while-answering", "deadline-silent", "crash", "handler-error", "stream-end", "send-fails", "pre-cancelled", "cancel-while-queued"}
 	for _, kd := range kinds {
 		for _, e := range endings {
 			if e == "stream-end" && !world.IsStream(kd.kind) {
@@ -213,7 +219,7 @@ func resInstances(tier string) []Instance {
 					continue
 				}
 				bound := 1
-				if thorough(tier) || (buf == 0 && (e == "crash" || e == "send-fails" || e == "cancel-then-answer")) {
+				if thorough(tier) || (buf == 0 && (e == "crash" || e == "send-fails" || e == "cancel-then-answer" || e == "cancel-while-answering")) {
 					bound = 2
 				}
 				p := resParams{kind: kd.kind, nsw: kd.nsw, ending: e, rounds: 2, buf: buf}
@@ -226,7 +232,7 @@ func resInstances(tier string) []Instance {
 
 func init() {
 	register(&Check{ID: "C18",
-		Rule:        "9 call variants (13 thorough) x way of ending {quorum before all replies then the straggler answers, exhaustion, cancel then the nodes answer, deadline with a node that stays silent, node crash + restart, handler error, stream end, the write itself failing (stream dies while the request is blocked in SendMsg on a full window), context already ended before the call, context ending while the request waits in the send buffer behind a blocked sender} x send buffer {0,1}, each call repeated twice on the same manager; after each round (back-off timers fired) the oracle reads the response-router count of every node through an accessor and the live per-call goroutines from the scheduler: zero once every targeted node has answered or its connection failed (one router per round only for a node that never answers), no growth between rounds; all schedules within the deviation bound; an outcome is the instance",
+		Rule:        "9 call variants (13 thorough) x way of ending {quorum before all replies then the straggler answers, exhaustion, cancel then the nodes answer, cancel (an adversary thread) while the nodes answer, deadline with a node that stays silent, node crash + restart, handler error, stream end, the write itself failing (stream dies while the request is blocked in SendMsg on a full window), context already ended before the call, context ending while the request waits in the send buffer behind a blocked sender} x send buffer {0,1}, each call repeated twice on the same manager; after each round (back-off timers fired) the oracle reads the response-router count of every node through an accessor and the live per-call goroutines from the scheduler: zero once every targeted node has answered or its connection failed (one router per round only for a node that never answers), no growth between rounds; all schedules within the deviation bound; an outcome is the instance",
 		Gen:         resInstances,
 		Assumptions: []string{"router counts are read through an accessor added by overlay; goroutines are identified by their spawn site"},
 	})
